@@ -23,15 +23,20 @@ RULE = ("port trees: 1..24 names per table over {a b c} + digits (lengths 1..3, 
         "frequent), leaves with/without ':types' (also two leaves with the same name and different types), "
         "'#N' enumerations in about a third of the tables (such tables take the linear scan, the others the "
         "perfect hash when the library finds one), sub-trees 'name/' and 'name#N/' nested up to 4 levels, "
-        "default handler on about a quarter of the tables, an occasional literal multi-component name (a/b); "
+        "default handler on about a quarter of the tables; in about a third of the tables names of several address "
+        "components, with and without '#N', as leaves and as sub-trees at every depth (a#2/b#3/, a#2/k#2:i, x/y/, u/v/w/; "
+        "a '#'-free table holding one takes the linear scan too); "
         "addresses derived from a randomly chosen port path: exact, one character appended / removed / changed, "
         "index N-1 / N / N+1 / leading zeros, '/' dropped or doubled, leading '/' dropped, plus random short "
         "addresses; type strings equal to an alternative, a proper extension of one (the text leaves that verdict open: the two runs must then agree), with the first tag changed, with the last tag dropped, or unrelated. "
         "Each case is dispatched twice (with and without location buffer).  Non-trivial = the table of the "
         "addressed port has >= 3 ports and at least one callback was invoked or a near-miss address was used.")
 TRUSTED = ["harness/h_C04.cpp: Ports subclass filling the public `ports` vector and calling refreshMagic(); callbacks "
-           "that record (port, msg offset, d.obj, d.loc, d.port) and re-dispatch like rRecurCb/rRecursCb (SNIP, "
-           "child object); hooks Ports::verif_tables (add-only, RTOSC_VERIF)",
+           "that record (port, msg offset, d.obj, d.loc, d.port) and re-dispatch like rRecurCb/rRecursCb (index at the '#', "
+           "SNIP of one component per '/' of the port's name, child object); a third of the sub-tree ports are served by the "
+           "library's own rRecurCb / rRecursCb (port-sugar.h) behind the recording wrapper, a proxy `ports` object forwards "
+           "their dispatch call to the run-time built sub-table and translates the pointer they computed back to the "
+           "harness's object numbering; hooks Ports::verif_tables (add-only, RTOSC_VERIF)",
            "tools/props/C04.py: the Python Spec oracle (C05's pattern oracle applied level by level)",
            "the perfect-hash search (find_pos, find_assoc) is not modelled: its output is an input of the model; "
            "what is modelled and proved is everything the library does with it"]
@@ -501,9 +506,14 @@ LEVEL_TEXT = ("Proved per table of Ports::dispatch, for ANY callbacks, any numbe
               "invokes a port whose name does not match (C04_hash_sound); the callback sees its own Port, loc = location + "
               "its name, and the buffer is restored (C04_port_pointer_and_loc, C04_loc_restored_*). The pinned functions are "
               "refuted on {ab,ba,aa,bb}, {c,a/b}, {a,bcd} (C04_pinned_refuted, C04_multicomponent_refuted, "
-              "C04_prefix_refuted; three fix: commits). NOT proved in Coq (checked by the correspondence run and the Spec "
-              "oracle on generated trees only): the composition over the levels of a tree (loc is the full address at every "
-              "depth, matches = number of leaf callbacks of the whole descent, object threading).")
+              "C04_prefix_refuted; three fix: commits). Proved for a tree of any depth (Ports/TreeProofs.v): a root dispatch "
+              "logs exactly spec_events with and without buffer (C04_tree_dispatch_*), matches = leaf callbacks "
+              "(C04_matches_count), own Port (C04_port_pointer), same callbacks with and without buffer "
+              "(C04_tree_strategy_independent), one leaf for an addressed path (C04_exactly_one_leaf); for names of the "
+              "documented form with ANY number of address components (a#2/b#3/, x/y/, a#2/k#2:i) every callback's loc is a "
+              "prefix of the full address and a leaf's loc is the full address (C04_loc_full_address), the table below a "
+              "sub-tree port receives exactly what follows the matched name (C04_snip_strips_matched_name), the index handed "
+              "down is the one spelled at the '#' (C04_index_at_hash).")
 LEVEL_NOTE = ("Trusted: Coq kernel, extraction, OCaml driver, harness (run-time built Ports, re-dispatching callbacks), the hook "
               "Ports::verif_tables, generators, the Python Spec oracle. The perfect-hash search is not modelled: its output "
               "is an input. Strategy independence is stated for literal single-component names (what the library hashes); "
